@@ -270,6 +270,19 @@ class Interp:
         s = s.strip()
         if re.match(r"^_\d+$", s):
             return fr.setdefault(s, Cell())
+        mi = re.match(r"^(.+)\[(_\d+)\]$", s)
+        if mi and self.balanced(mi.group(1)):
+            # array element with a runtime index (the bounds check is a separate MIR assert): the index must be concrete here
+            arr = self.place_cell(fr, mi.group(1)).v
+            iv = fr.get(mi.group(2)).v if fr.get(mi.group(2)) is not None else None
+            iv = z3.simplify(iv) if z3.is_expr(iv) else iv
+            if z3.is_expr(iv) and (z3.is_bv_value(iv) or z3.is_int_value(iv)):
+                k = iv.as_long()
+            else:
+                raise Unsupported("array index %s is not concrete: %r" % (mi.group(2), iv))
+            if isinstance(arr, Struct) and k in arr.f:
+                return arr.f[k]
+            raise MirPanic("index out of bounds: %s[%d]" % (mi.group(1), k))
         if s.startswith("(*") and s.endswith(")") and self.balanced(s[2:-1]):
             inner = self.place_cell(fr, s[2:-1])
             r = inner.v
